@@ -388,7 +388,17 @@ pub fn render_response(r: &RespSpec, rng: &mut StdRng) -> (Vec<u8>, Vec<(usize, 
             let mut off = 0;
             while off < r.body.len() {
                 let n = rng.gen_range(1..=(r.body.len() - off).min(700));
-                b.extend(format!("{:x}{}\r\n", n, if rng.gen_bool(0.3) { ";e=1" } else { "" }).as_bytes());
+                // size lines of every length up to the decoder's documented 20 bytes (zero padding, extensions)
+                let hex = format!("{:x}", n);
+                let line = match rng.gen_range(0..8) {
+                    0 | 1 => format!("{};e=1", hex),
+                    2 => format!("{}{}", "0".repeat(19 - hex.len()), hex),
+                    3 => format!("{};{}", hex, "x".repeat(20 - hex.len() - 1)),
+                    4 => format!("{};ext={}", hex, "a".repeat(19 - hex.len() - 5)),
+                    5 => format!("{}{}", "0".repeat(18 - hex.len()), hex),
+                    _ => hex,
+                };
+                b.extend(format!("{}\r\n", line).as_bytes());
                 b.extend(&r.body[off..off + n]);
                 b.extend(b"\r\n");
                 off += n;
@@ -432,7 +442,7 @@ pub fn c01(o: &Opts, t: &mut Tracer) -> Value {
         let mut first_interim = true;
         for k in 0..nresp {
             let last = k + 1 == nresp;
-            let status = [200u16, 200, 404, 204, 304, 302, 500, 201][rng.gen_range(0..8)];
+            let status = [200u16, 200, 404, 204, 304, 302, 500, 201, 205, 206, 203, 307][rng.gen_range(0..12)];
             let nb = no_body_status(method, status);
             // a redirect without a framing header has no body (C06): no close-delimited 3xx bodies
             let redirect = (300..400).contains(&status);
